@@ -5,6 +5,11 @@ ENGINES = {
              "kind": "direct execution of arbitrary rule values through the exec_rule_* hook on a boundary grid of parameters, registers and stack readers (readers derived from the addresses the rule actually reads); impl vs Lean model + per-step oracles"},
 }
 
+ENGINES["hist"] = {"path": "harness/src/hist.rs",
+    "kind": "operation histories (new/clone/add_module/remove_module/unwind_frame/iter_frames/find/max) over several real Unwinders sharing real Caches, on generated DWARF modules (eh_frame+hdr, eh_frame alone, debug_frame; CFI bytes written by harness/src/cfi.rs), mirrored op by op on the Lean world model; direct oracles: fresh-cache twin, reference module set, iterator vs manual fold, distinct generations, one-counter-per-call, hits touch no section bytes"}
+ENGINES["thr"] = {"path": "harness/src/thr.rs",
+    "kind": "16 threads creating/modifying unwinders concurrently; generations read through the hook must be pairwise distinct and form the contiguous run the model predicts; syntactic shape check of the fetch_add"}
+
 NOT_APPLICABLE = {}
 
 _NOTE = ("Trusted: Lean kernel; axioms propext/Classical.choice/Quot.sound only (audited per theorem on every run); "
@@ -15,30 +20,73 @@ _NOTE = ("Trusted: Lean kernel; axioms propext/Classical.choice/Quot.sound only 
 PROPS = {
     "C09": {
         "lean": ["FH.Props.C09"],
-        "engines": ["rule"],
+        "engines": ["rule", "hist"],
         "level_text": "Theorems: rule execution on both architectures has no reachable panic for all parameters/registers/readers; checked_add_signed equals the mathematical definition. The model is tied to the code by executing every generated case on both; every case is also run on the implementation under catch_unwind with overflow checks on.",
         "level_note": _NOTE,
         "statement": "No model function has a reachable panic outcome: rule execution (both architectures, all parameter values of the Rust field types, all registers, all stack readers), checked_add_signed, the pointer-auth mask constructor. Every model function is total in Lean (structural recursion).",
     },
     "C10": {
         "lean": ["FH.Props.C10"],
-        "engines": ["rule"],
+        "engines": ["rule", "hist"],
         "level_text": "Theorems: per-step progress facts for every rule and a walk-level no-repeat/termination theorem by a lexicographic argument over (sp, address); correspondence + direct per-step progress oracle on the implementation.",
         "level_note": _NOTE,
         "statement": "Caller-frame rule steps never decrease sp, frame-pointer steps strictly increase it, success never leaves (sp, address) unchanged; along any walk no (address, sp) state repeats and walks have bounded length. aarch64: sp strictly increases in every caller-frame step.",
     },
     "C11": {
         "lean": ["FH.Props.C11"],
-        "engines": ["rule"],
+        "engines": ["rule", "hist"],
         "level_text": "Theorems: no null frame, error address is an unreadable address, for all rules/registers/readers; correspondence + direct oracle using a recording stack reader.",
         "level_note": _NOTE,
         "statement": "Rule-based steps never return a null frame; an Err(CouldNotReadStack(a)) names an address whose read failed.",
     },
     "C16": {
         "lean": ["FH.Props.C16"],
-        "engines": ["rule"],
+        "engines": ["rule", "hist"],
         "level_text": "Theorems: stripping of the returned address and of lr for every rule and outcome; from_max_known_address preserves all addresses up to its argument (all 65 leading-zero classes by a kernel-checked table + lemma); correspondence + direct bit oracle.",
         "level_note": _NOTE,
         "statement": "Every return address reported by an aarch64 rule step and the lr left in the register set have no bits outside the mask; from_max_known_address preserves every address up to its argument, including 0; constructors are total.",
+    },
+    "C06": {
+        "lean": ["FH.Props.C06"],
+        "engines": ["hist"],
+        "level_text": "Theorem C06_cache_transparency: for every history of new/clone/add/remove/unwind over any number of unwinders sharing a cache (fewer than 65 536 module-set changes, consistent ip/return use of each address) the outcome of a further call equals the outcome with a fresh cache, by an invariant over the history (every cache entry is the rule a miss would insert for its address under the module list its generation stands for) proved preserved by every operation. Tie: histories executed on real unwinders/caches and on the model; every unwind also run against a fresh real cache.",
+        "level_note": _NOTE + " The theorem's key premise - the inserted rule never depends on registers or stack - is a structural property of the model (missPath_static) that the correspondence and the fresh-cache twin check on the code.",
+        "statement": "For all histories (unbounded length, any interleaving of calls on colliding and non-colliding addresses, cacheable/uncacheable/failing calls, module changes, clones, several unwinders) the result and updated registers of unwind_frame do not depend on the cache contents.",
+    },
+    "C07": {
+        "lean": ["FH.Props.C07"],
+        "engines": ["hist"],
+        "level_text": "Theorems: find_module_for_address is sound and complete w.r.t. containment on non-overlapping lists (with the u32 relative-address and base-address conditions stated), add_module keeps the structure and commutes (the list is a function of the set), remove_module removes exactly the named module or nothing, removed ranges are unknown again, max_known_code_address is the largest end or 0, operations on one unwinder leave the others untouched. Tie: histories with find/max probes at every range boundary, compared with the model and with a reference set kept by the harness.",
+        "level_note": _NOTE + " core::slice::binary_search_by_key is modelled by its contract on lists with distinct keys (lowerBound).",
+        "statement": "Refinement of the sorted module Vec to a finite set of non-overlapping ranges, for all operation sequences and probe addresses.",
+    },
+    "C13": {
+        "lean": ["FH.Props.C13"],
+        "engines": ["hist"],
+        "level_text": "Theorems: the lookup address of a return address a is a-1 and of an instruction pointer a is a; unwind_frame depends on a return address only through a-1; for adjacent modules / adjacent FDEs the boundary address resolves to the earlier one as return address and to the later one as instruction pointer. Tie: histories probe every module/FDE/row boundary +-1 in both kinds.",
+        "level_note": _NOTE,
+        "statement": "Return addresses are looked up at address-1 in the cache, the module list and the FDE table; instruction pointers exactly.",
+    },
+    "C17": {
+        "lean": ["FH.Props.C17"],
+        "engines": ["hist"],
+        "level_text": "Theorem C17_iterator_is_fold: for every number of next() calls the items are pc followed by exactly the fold of unwind_frame over the same registers and cache, including the mapping of a null return address to an error, and Done is absorbing for any number of extra calls. Tie: iter_frames through the inherent next and through FallibleIterator::next vs a manual unwind_frame loop, 0-3 extra calls.",
+        "level_note": _NOTE + " The behaviour after an Err (state stays Unwinding) is characterised exactly by the theorem and reproduced by the manual fold; the property's 'once it has finished' is read as 'once it has returned Ok(None)' (DESIGN.md C17).",
+        "statement": "Iterator = fold of unwind_frame, starts at pc, stays finished.",
+    },
+    "C18": {
+        "lean": ["FH.Props.C18"],
+        "engines": ["thr", "hist"],
+        "level_text": "Theorems: any two of up to 65 536 consecutive atomic draws differ; the value of a draw depends only on its position in the global order, not on the schedule (every interleaving of atomic steps is a sequence); in every reachable state two live unwinders with the same generation have the same module list. The atomicity of fetch_add is trusted; the check verifies the source still uses a single fetch_add. Tie: 16 real threads drawing concurrently, generations read through the hook.",
+        "level_note": _NOTE + " AtomicU16::fetch_add is assumed to be one atomic read-modify-write (hardware/core); OS schedules are whatever the machine gives.",
+        "statement": "Distinct module-set identities for all interleavings of fewer than 65 536 new/add/remove operations.",
+        "trusted_extra": ["AtomicU16::fetch_add is one atomic read-modify-write"],
+    },
+    "C20": {
+        "lean": ["FH.Props.C20"],
+        "engines": ["hist"],
+        "level_text": "Theorems: every lookup increments exactly one counter, chosen by the slot content exactly as documented; one call = one lookup; a cacheable call leaves its rule in its slot; calls that map to other slots never disturb it; a call that finds its entry is a hit, returns the cached rule's execution and consults no section data. Tie: histories with exact repeats and colliding addresses, four counters and a section-access flag compared with the model per call; section bytes are supplied through a Deref wrapper that counts accesses.",
+        "level_note": _NOTE,
+        "statement": "The cache caches (hit after cacheable call absent slot collisions, no section access on a hit) and its four statistics are exact.",
     },
 }
